@@ -542,9 +542,12 @@ extern int total_queries;
             _blob = (const void *) sqlite3_column_blob(_stmt, _col_ofs + 2); \
             /* the value holds nothing to clean unless and until it is successfully deserialized: */ \
             _value->kind = CIF_UNK_KIND; \
-            if ((_blob != NULL) && (cif_value_deserialize( \
-                    _blob, (size_t) sqlite3_column_bytes(_stmt, _col_ofs + 2), _value) == CIF_OK)) { \
-                break; \
+            if (_blob != NULL) { \
+                int _gvp_result = cif_value_deserialize( \
+                        _blob, (size_t) sqlite3_column_bytes(_stmt, _col_ofs + 2), _value); \
+                if (_gvp_result == CIF_OK) break; \
+                /* running out of memory does not mean that the stored value is malformed */ \
+                if (_gvp_result == CIF_MEMORY_ERROR) FAIL(errlabel, CIF_MEMORY_ERROR); \
             } \
             FAIL(errlabel, CIF_INTERNAL_ERROR); \
         case CIF_UNK_KIND: \
